@@ -98,15 +98,18 @@ def self_validate(pid):
         return {}
     with open(p) as fh:
         idx = json.load(fh)['patches']
-    todo = sorted(k for k, v in idx.items() if pid in v.get('fires', []))
+    todo = sorted(k for k, v in idx.items() if pid in v.get('fires', []) or pid in v.get('silent', []))
     out = {}
 
     def one(patch):
+        want_fire = pid in idx[patch].get('fires', [])
         r = run_patch(os.path.join(VERIF, patch), [pid])
         if not r['applied']:
-            return patch, {'fired': True, 'note': 'patch no longer applies to the current tree (skipped)'}
+            return patch, {'fired': True, 'expect': 'violation' if want_fire else 'silence',
+                           'note': 'patch no longer applies to the current tree (skipped)'}
         c = r['checks'][pid]
-        return patch, {'fired': c['exit'] == 1, 'exit': c['exit'],
+        good = (c['exit'] == 1) if want_fire else (c['exit'] == 0)
+        return patch, {'fired': good, 'expect': 'violation' if want_fire else 'silence', 'exit': c['exit'],
                        'report': [l for l in c['lines'] if ' rule=' in l][:2]}
     with ThreadPoolExecutor(max_workers=6) as ex:
         for patch, r in ex.map(one, todo):
@@ -213,7 +216,8 @@ def main():
         rep.notes.append({'self_validation': sv})
         missed = [p for p, r in sv.items() if not r['fired']]
         if missed:
-            print('ANALYSIS-ERROR property=%s self-validation: the check does not report %s any more' % (pid, ', '.join(missed)))
+            print('ANALYSIS-ERROR property=%s self-validation: wrong verdict on %s (a recorded breaking change is no longer '
+                  'reported, or a behaviour-preserving refactor raises an alarm)' % (pid, ', '.join(missed)))
             write_evidence(pid, tier, seed, rep, time.time() - t0, 0, hit, error='self-validation missed: ' + ', '.join(missed), sv=sv)
             sys.exit(2)
     write_evidence(pid, tier, seed, rep, time.time() - t0, len(new), hit, sv=sv)
